@@ -791,6 +791,9 @@ def chunked(inp):
     from spec.streams import ReadBudgetExceeded
     got = b""
     want = b"".join(bodies)
+    # C11 alone states 'returns fewer only when the peer has closed or a timeout occurs'; C12 asks only for the delivered bytes
+    import os as _os
+    strict_empty = _os.environ.get("PYVC_PROPERTY") == "C11"
     try:
         w = SocketWrapper(sock, encoding=1 | comp, bufsize=inp.get("bufsize") or (len(enc) + 10))
         for _ in range(len(enc) + len(want) + 10):
@@ -798,6 +801,10 @@ def chunked(inp):
             if not r:
                 if sock.pos >= len(enc):
                     break
+                if strict_empty:
+                    return {"fails": True, "expected": "read(1) returns fewer bytes than requested only when the peer has closed or timed out",
+                            "observed": f"b'' after {len(got)} bytes while the peer still had {len(enc) - sock.pos} bytes to send and no receive failed",
+                            "encoded": enc.hex()[:120], "segments": segs}
                 continue
             got += r
     except ReadBudgetExceeded as e:
